@@ -17,5 +17,15 @@ def run_cl(ctx, prop, n_quick=24, n_thorough=800):
         return
     mine = ORACLES[prop]
     res["oracle_fails"] = [f for f in res["oracle_fails"] if f["check"] in mine]
-    fw.report_corr(ctx, "cl", res, known_features=lambda f: {"check": f["check"]})
+    fw.report_corr(ctx, "cl", res, known_features=_features)
     return res
+
+
+def _features(f):
+    """known-finding features of a cl oracle failure: the check and, for failing exits, the class the harness assigned"""
+    import re
+    feats = {"check": f["check"]}
+    m = re.search(r"class=(\S+)", f["detail"])
+    if m:
+        feats["class"] = m.group(1)
+    return feats
